@@ -1,6 +1,7 @@
 """Shared history machinery for C11 (immutability), C12 (execution) and C16 (query metadata):
 random and enumerated histories of derive / execute operations over a forest of streams."""
 import ast
+from common import exact_eq
 import asyncio
 import copy
 import typing
@@ -63,7 +64,10 @@ LAMBDAS = {
     "SelectMany": ["lambda e: e.Jets()", "lambda e: e.Jets().Select(lambda j: j.pt())"],
 }
 MDS = [{}, {"a": 1}, {"b": "x"}, {}]
-QMDS = [{"k1": 1}, {"k2": "v"}, {"k1": 2}, {"k1": 1, "k3": 3}, {"k3": 3}, {"k2": "v"}]
+# (the last three: values that compare equal to an earlier one but are other values - repaired
+# defect: QMetaData did not record them)
+QMDS = [{"k1": 1}, {"k2": "v"}, {"k1": 2}, {"k1": 1, "k3": 3}, {"k3": 3}, {"k2": "v"},
+        {"k1": True}, {"k1": 1.0}, {"k3": 3.0, "k1": 1}]
 
 
 class Hist:
@@ -115,7 +119,7 @@ class Hist:
                                          f"stream #{i} ({r['desc']}): key {k!r} gives {got!r}, spec "
                                          f"says {hits!r}", hist, hits, got,
                                          {"kind": "hist", "log": self.log})
-                    if got != exp:
+                    if got != exp or not exact_eq(got, exp):
                         self.t.violation("lookup_query_metadata:ensures result == view(path)(key)",
                                          f"stream #{i} ({r['desc']}): key {k!r} gives {got!r}, "
                                          f"expected {exp!r} after: {after}", hist, exp, got,
